@@ -18,6 +18,7 @@ package main
 
 import (
 	"bufio"
+	"bytes"
 	"encoding/json"
 	"flag"
 	"fmt"
@@ -27,6 +28,7 @@ import (
 	"path/filepath"
 	"regexp"
 	"sort"
+	"strconv"
 	"strings"
 	"time"
 
@@ -585,7 +587,44 @@ func f(a, b int, xs []int, ok bool) int {
 func g(x, y int) {}
 `
 
+var lineRe = regexp.MustCompile(`rules\.go:([0-9]+)`)
+
+const shiftLines = 3
+
+// shiftProblem: the line an error names must be a line of the source: with blank lines inserted after the first line of the file
+// the same error must name a line that many lines further down (an error located on line 1 stays there). Returns a description
+// of the disagreement, "" when there is none.
+func shiftProblem(fset *token.FileSet, src []byte, o Obs) string {
+	if o.Kind != "error" || !o.Located {
+		return ""
+	}
+	nl := bytes.IndexByte(src, '\n')
+	if nl < 0 {
+		return ""
+	}
+	shifted := append(append(append([]byte{}, src[:nl+1]...), bytes.Repeat([]byte("\n"), shiftLines)...), src[nl+1:]...)
+	_, o2 := loadObs(fset, shifted)
+	if o2.Kind != "error" {
+		return fmt.Sprintf("with %d blank lines after line 1 Load answers %s %s", shiftLines, o2.Kind, o2.Err)
+	}
+	m1, m2 := lineRe.FindStringSubmatch(o.Err), lineRe.FindStringSubmatch(o2.Err)
+	if m1 == nil || m2 == nil {
+		return fmt.Sprintf("with %d blank lines after line 1 the error is: %s", shiftLines, o2.Err)
+	}
+	l1, _ := strconv.Atoi(m1[1])
+	l2, _ := strconv.Atoi(m2[1])
+	want := l1 + shiftLines
+	if l1 <= 1 {
+		want = l1
+	}
+	if l2 != want {
+		return fmt.Sprintf("the error names line %d; with %d blank lines inserted after line 1 it names line %d (want %d): %s", l1, shiftLines, l2, want, o2.Err)
+	}
+	return ""
+}
+
 type Case struct {
+	Shift  string    `json:"shift,omitempty"` // the named line does not move with the source (see shiftProblem)
 	Stream string    `json:"stream"`
 	ID     int       `json:"id"`
 	Src    string    `json:"src,omitempty"`
@@ -645,7 +684,7 @@ func main() {
 		return true
 	}
 	emit := func(c Case, full bool) {
-		if !full && c.Obs.Kind != "panic" && c.Obs.Kind != "timeout" && (c.Obs.Kind == "ok" || c.Obs.Located) && c.Run == "" && c.NilRep == 0 {
+		if !full && c.Obs.Kind != "panic" && c.Obs.Kind != "timeout" && (c.Obs.Kind == "ok" || c.Obs.Located) && c.Run == "" && c.NilRep == 0 && c.Shift == "" {
 			c.Src = ""
 		}
 		enc.Encode(c)
@@ -714,6 +753,7 @@ func main() {
 		c := Case{Stream: "notdsl", ID: id, Src: src}
 		var e *ruleguard.Engine
 		e, c.Obs = loadObs(t.Fset, []byte(src))
+		c.Shift = shiftProblem(t.Fset, []byte(src), c.Obs)
 		if !strings.Contains(body, "for { }") && !strings.Contains(body, "return flt(ctx)") {
 			runIt(&c, e)
 		}
@@ -729,6 +769,9 @@ func main() {
 		c := Case{Stream: "dsl", ID: id, Src: src, Rule: &d}
 		var e *ruleguard.Engine
 		e, c.Obs = loadObs(t.Fset, []byte(src))
+		if i%3 == 0 {
+			c.Shift = shiftProblem(t.Fset, []byte(src), c.Obs)
+		}
 		runIt(&c, e)
 		emit(c, true)
 	}
@@ -740,6 +783,7 @@ func main() {
 		}
 		c := Case{Stream: "struct", ID: id, Src: src}
 		_, c.Obs = loadObs(t.Fset, []byte(src))
+		c.Shift = shiftProblem(t.Fset, []byte(src), c.Obs)
 		emit(c, false)
 	}
 }
